@@ -6,7 +6,7 @@ The Model functions named here are the ones `ofv-driver` executes in the corresp
 Proved end-to-end for one term: `qubit_term_matrix_sound` (the Kronecker chain of a Pauli string is
 its matrix in the big-endian basis, all register sizes).  Not proved (see OPEN_STATEMENTS in
 harness/c06.py): the coordinate assembly over several terms (`qubitTermTriplets` with the swapped
-`nonzero()` order, `canonEntries`), `jw_sparse_sound`, `matvec_sound`, `diagonal_sound`;
+`nonzero()` order, `canonEntries`), `jw_sparse_sound`, `diagonal_sound`;
 they are covered by the exact correspondence run and the Spec oracle.
 -/
 import OFV.Model.C06
@@ -14,6 +14,7 @@ import OFV.Spec.C06
 import OFV.Proofs.C06Basic
 import OFV.Proofs.C06Kron
 import OFV.Proofs.C06Term
+import OFV.Proofs.C06Matvec
 
 namespace OFV.C06
 open OFV OFV.Spec OFV.Spec.C06 OFV.Model OFV.Model.C06 OFV.Proofs.C06
@@ -86,6 +87,36 @@ theorem qubit_term_matrix_sound (n : Nat) (t : List (Nat × Nat)) (c : GQ)
 example : (kronList (qubitTermFactors 3 [(0, 2), (2, 3)] ⟨2, 0⟩)).get (beIndex 3 0b101) (beIndex 3 0b100) = ⟨0, -2⟩ ∧
     Spec.C07.ampP [(0, 2), (2, 3)] 0b100 0b101 = ⟨0, -1⟩ := by
   refine ⟨by decide +kernel, by decide +kernel⟩
+
+/-! ### `LinearQubitOperator._matvec` -/
+
+/-- `matvec_sound`, term level: for a Pauli string `t` on qubits `< n` and *every* vector `x` of
+length `2^n`, the recursive halving (`numpy.split` / `xyz` / `numpy.concatenate`) returns a vector of
+length `2^n` that is the image of `x` under the Spec action in the big-endian basis: for every
+basis state `s` with `t|s⟩ = i^k |s'⟩`, `result[beIndex n s'] = i^k · x[beIndex n s]`. -/
+theorem matvec_term_sound (n : Nat) (t : List (Nat × Nat)) (x : List GQ)
+    (hp : t.Pairwise (fun f g => f.1 < g.1)) (hv : ∀ f ∈ t, f.1 < n ∧ 1 ≤ f.2 ∧ f.2 ≤ 3)
+    (hx : x.length = 2 ^ n) :
+    (matvecTerm t x).length = 2 ^ n ∧
+    ∀ s, (matvecTerm t x).getD (beIndex n (actPTerm t s).2) 0 =
+      GQ.ipow (actPTerm t s).1 * x.getD (beIndex n s) 0 :=
+  matvecTerm_sound n t x hp hv hx
+
+example : matvecTerm [(0, 2), (1, 3)] [⟨1, 0⟩, ⟨2, 0⟩, ⟨3, 0⟩, ⟨4, 0⟩] = [⟨0, -3⟩, ⟨0, 4⟩, ⟨0, 1⟩, ⟨0, -2⟩] := by
+  decide +kernel
+
+/-- `matvec_sound`, linearity: `LinearQubitOperator._matvec` is the coefficient-weighted sum of the
+term results, entry by entry (`retvec += coefficient * numpy.concatenate(vecs)`), and has length `2^n`. -/
+theorem matvec_linear (n : Nat) (a : List (List (Nat × Nat) × GQ)) (x : List GQ) (hx : x.length = 2 ^ n)
+    (ha : ∀ e ∈ a, e.1.Pairwise (fun f g => f.1 < g.1) ∧ ∀ f ∈ e.1, f.1 < n ∧ 1 ≤ f.2 ∧ f.2 ≤ 3) (i : Nat) :
+    (matvec a x).length = 2 ^ n ∧
+    (matvec a x).getD i 0 = a.foldl (fun acc e => acc + e.2 * (matvecTerm e.1 x).getD i 0) 0 := by
+  have h := matvec_fold n x hx a ha (x.map fun _ => 0) (by simp [hx]) i
+  have hz : (x.map fun _ => (0 : GQ)).getD i 0 = 0 := by
+    simp only [List.getD_eq_getElem?_getD, List.getElem?_map]
+    cases x[i]? <;> rfl
+  rw [hz] at h
+  exact h
 
 /-! ### the big-endian index convention -/
 
